@@ -37,7 +37,16 @@ def varint_bound(prog):
     for nm in ("mtbl_varint_decode64", "mtbl_varint_decode32"):
         g = prog.need(nm, "mtbl/varint.c")
         I = B.Interp(prog, g.unit)
-        traces = I.run(g)
+        try:
+            traces = I.run(g)
+        except BrokenAnalysis as e:
+            if "is undefined" in str(e):
+                # some input drives the decoder into undefined behaviour (a shift by the width or more): it keeps consuming
+                # bytes beyond what the value can hold
+                out[nm] = -1
+                out[nm + ":why"] = str(e)
+                continue
+            raise
         if not traces:
             raise BrokenAnalysis("%s: no trace" % nm)
         mx = 0
@@ -61,7 +70,8 @@ def run(ctx, res):
     want = {r["what"].split()[-1]: r["bound"] for r in T["bounded_not_tainted"]}
     res.check(vb.get("mtbl_varint_decode64") == 10 and vb.get("mtbl_varint_decode32") == 5, "C19.R1", "_varint_decode:bound",
               "encoded length bounded by %s bytes (largest offset read on any trace of the bit-provenance interpretation)" % vb,
-              "varint decoder may touch %s bytes, the extent table assumes 10 / 5" % vb)
+              ("varint decoder may touch %s bytes, the extent table assumes 10 / 5" % {k: v for k, v in vb.items() if not k.endswith(":why")}) +
+              ("".join("; %s" % v for k, v in vb.items() if k.endswith(":why"))))
     f = prog.need("mtbl_reader_init_fd", U)
     res.saw(f)
     ev = APE.run(prog, cg, f, bound=APE.BOUND)
